@@ -40,10 +40,20 @@ def _oc(ex):
     return n if n in ("TypeError", "ValueError", "ZeroDivisionError") else "other:" + n
 
 
+_SHARED = {}
+
+
 def _call(planet, fn, variant, jde):
     from pymeeus.Epoch import Epoch
     f = getattr(_cls(planet), fn)
-    e = Epoch(jde)
+    # every third query re-targets one long-lived Epoch with set() instead of building a fresh one
+    n = _SHARED.get("n", 0) + 1
+    _SHARED["n"] = n
+    if n % 3 == 0:
+        e = _SHARED.setdefault("e", Epoch(2451545.0))
+        e.set(jde)
+    else:
+        e = Epoch(jde)
     if variant < 0:
         return f(e)
     return f(e, bool(variant))
